@@ -130,7 +130,9 @@ def describe_targets(targets):
 def _worker(args):
     modname, jobname, tier, seed = args
     import warnings
+    import logging
     warnings.filterwarnings('ignore')
+    logging.disable(logging.CRITICAL)      # logging/formatting: empty bodies (not the subject)
     t0 = time.time()
     try:
         mod = importlib.import_module(modname)
